@@ -2,8 +2,8 @@ package main
 
 import (
 	"fmt"
-	"regexp"
 	"go/types"
+	"regexp"
 	"strings"
 
 	"golang.org/x/tools/go/ssa"
@@ -115,7 +115,7 @@ func (st *State) clone() *State {
 		pc: append([]Term(nil), st.pc...), alloc: st.alloc, assign: append([]Region(nil), st.assign...),
 		freshLo: st.freshLo, steps: st.steps, loopHd: map[*Loop]*State{}, loopIt: map[*Loop]int{},
 		alloc0: st.alloc0,
-		path: append([]string(nil), st.path...), havocs: append([]havocEvent(nil), st.havocs...), formal: st.formal,
+		path:   append([]string(nil), st.path...), havocs: append([]havocEvent(nil), st.havocs...), formal: st.formal,
 	}
 	for k, v := range st.cells {
 		n.cells[k] = v
@@ -317,6 +317,7 @@ func (x *Exec) loadedFacts(st *State, t types.Type, v Value) {
 			st.assume(Le(u.Len, u.Cap))
 		}
 		st.assume(And(Le(IntLit(0), u.Off), Le(IntLit(0), u.Arr), Lt(u.Arr, bound(u.Arr))))
+		st.assume(Implies(Eq(u.Arr, IntLit(0)), And(Eq(u.Len, IntLit(0)), Eq(u.Cap, IntLit(0)))))
 	case PtrV:
 		if u.Kind == PHeap {
 			st.assume(Lt(u.Ref, bound(u.Ref)))
